@@ -583,3 +583,63 @@ func checkWrapperNotTakenForPacket(c *Ctx, rule string) {
 		})
 	}
 }
+
+// requestFieldsOf runs requestFromPacket on a packet of the named type whose fields are opaque tokens named after
+//  themselves, and reports where each field of the Request it returns comes from: "Newpath", "clean:Newpath" (through
+// cleanPathWithBase with the start directory; "clean-elsewhere:" with another base), "copy:Attrs" (a fresh slice with that field's contents).  However the function is written — a
+// type switch, a method per packet type behind an interface, helpers — the answer is the same; ok is false when the
+// interpreter cannot run it to its return (a branch on something it does not know).
+func (p *Program) requestFieldsOf(tn string) (map[string]string, bool) {
+	rfp := p.Func("requestFromPacket")
+	nt := p.NamedType(p.Sftp, tn)
+	if rfp == nil || nt == nil || len(rfp.Params) != 3 {
+		return nil, false
+	}
+	st, isStruct := nt.Underlying().(*types.Struct)
+	if !isStruct {
+		return nil, false
+	}
+	obj := &evObj{typ: nt, fields: map[string]evVal{}}
+	for i := 0; i < st.NumFields(); i++ {
+		f := st.Field(i)
+		tok := evSymbol(f.Name())
+		if types.IsInterface(f.Type()) {
+			// Attrs interface{}: the decoders put the raw bytes there
+			obj.fields[f.Name()] = evVal{k: evIface, t: types.NewSlice(types.Typ[types.Byte]), inner: &tok}
+		} else {
+			obj.fields[f.Name()] = tok
+		}
+	}
+	ev := newEvaluator(p)
+	clean := p.Func("cleanPathWithBase")
+	ev.opaque = func(callee *ssa.Function, args []evVal) (evVal, bool) {
+		if callee == clean && clean != nil && len(args) == 2 {
+			if l := labelOf(args[1]); l != "" {
+				if labelOf(args[0]) != "baseDir" {
+					return evSymbol("clean-elsewhere:" + l), true // made absolute against something other than the start directory
+				}
+				return evSymbol("clean:" + l), true
+			}
+			return evVal{}, true
+		}
+		if callee.Pkg != nil && callee.Pkg.Pkg.Path() == "bytes" && callee.Name() == "Clone" && len(args) == 1 {
+			if l := labelOf(args[0]); l != "" {
+				return evSymbol("copy:" + l), true
+			}
+		}
+		return evVal{}, false
+	}
+	pt := types.NewPointer(nt)
+	arg := evVal{k: evIface, t: pt, inner: &evVal{k: evObject, obj: obj}}
+	res := ev.run(rfp, []evVal{{}, arg, evSymbol("baseDir")}, 0)
+	if res.kind != "return" || len(res.vals) != 1 || res.vals[0].k != evObject {
+		return nil, false
+	}
+	out := map[string]string{}
+	for name, v := range res.vals[0].obj.fields {
+		if l := labelOf(v); l != "" {
+			out[name] = l
+		}
+	}
+	return out, true
+}
